@@ -9,6 +9,9 @@ import json, os, re, shutil, subprocess, sys, tempfile, time, random, atexit, si
 
 VERIF = os.path.dirname(os.path.dirname(os.path.abspath(__file__)))
 REPO = os.environ.get("VERIF_REPO", "/repo")
+# evidence of the registered checks lives in /verif/evidence; runs against a *changed* copy of the repository (VERIF_REPO, the
+# seeded-change and mutation campaigns) must not overwrite it: they set VERIF_EVIDENCE_DIR
+EVDIR = os.environ.get("VERIF_EVIDENCE_DIR") or os.path.join(VERIF, "evidence")
 SPEC = os.path.join(VERIF, "spec")
 HARNESS = os.path.join(VERIF, "harness")
 NCPU = min(16, os.cpu_count() or 4)
@@ -285,7 +288,7 @@ class Report:
                 self.prop, sig, len(items), items[0][0]))
         rc = 0
         if viol:
-            rdir = os.path.join(VERIF, "evidence", "replay")
+            rdir = os.path.join(EVDIR, "replay")
             os.makedirs(rdir, exist_ok=True)
             seen = set()
             for sig, desc, rp in viol:
@@ -307,8 +310,8 @@ class Report:
             "wall_s": round(time.time() - self.t0, 2), "violations": len(viol),
             "notes": self.notes,
         }
-        os.makedirs(os.path.join(VERIF, "evidence"), exist_ok=True)
-        with open(os.path.join(VERIF, "evidence", self.prop + ".json"), "w") as f:
+        os.makedirs(EVDIR, exist_ok=True)
+        with open(os.path.join(EVDIR, self.prop + ".json"), "w") as f:
             json.dump(ev, f, indent=1)
         print("%s %s: %s in %.1fs (%d failing case(s), %d unlisted)" % (
             self.prop, self.tier, "OK" if rc == 0 else "VIOLATION", time.time() - self.t0,
